@@ -1612,7 +1612,270 @@ def falsify(ctx, hints):
                 inp, _diff_names(after, want), "selected names changed as specified, all others untouched")
         if len(fails) > 12:
             break
+
+    _falsify_round4(ctx, rng, add, info, fails)
     return fails, info
+
+
+# ---------------------------------------------------------------------- round 4: sessions, several databoxes, empty series
+
+_SEL_KINDS = ["all", "list", "list", "str", "pred", "pred"]
+_TGT_KINDS = ["same", "same", "list", "fun", "fun"]
+_LATER_OPS = ["clip", "clip", "overlay", "underlay", "prepend", "merge-stack", "merge-replace", "rename", "remove", "keep"]
+
+
+def _f_selection(rng, keys):
+    """(python source selection, python target, JSON description, expected {target: source}) for Databox.copy."""
+    sk = rng.choice(_SEL_KINDS) if keys else "all"
+    if sk == "all":
+        src, sel, sdesc = list(keys), None, "None"
+    elif sk == "list":
+        src = rng.sample(keys, rng.randint(1, min(4, len(keys))))
+        sel, sdesc = list(src), list(src)
+    elif sk == "str":
+        src = [rng.choice(keys)]
+        sel, sdesc = src[0], src[0]
+    else:
+        c = rng.choice(keys)[0]
+        src = [k for k in keys if k.startswith(c)]
+        sel, sdesc = (lambda nm, c=c: nm.startswith(c)), f"lambda n: n.startswith({c!r})"
+    tk = rng.choice(_TGT_KINDS)
+    if tk == "same":
+        tgt, tdesc, names = None, "None", {k: k for k in src}
+    elif tk == "list" and sk != "str":
+        tl = [f"t{i}_{k}" for i, k in enumerate(src)]
+        tgt, tdesc, names = list(tl), list(tl), dict(zip(tl, src))
+    else:
+        pre = rng.choice(["c_", "new_", "z"])
+        tgt, tdesc, names = (lambda nm, pre=pre: pre + nm), f"lambda n: {pre!r} + n", {pre + k: k for k in src}
+    return sel, tgt, {"source_names": sdesc, "target_names": tdesc}, names
+
+
+def _f_later_op(rng, w, D, other_spec):
+    """One in-place databox operation on D; returns its JSON description."""
+    op = rng.choice(_LATER_OPS)
+    keys = list(D.keys())
+    f = rng.choice(w.freqs)
+    if op == "clip":
+        a, b = w.base[f] + rng.randint(-1, 3), w.base[f] + rng.randint(2, 5)
+        D.clip(sc.mk_period(f, a), sc.mk_period(f, b))
+        return {"op": "clip", "freq": f, "from": a, "until": b}
+    if op in ("overlay", "underlay"):
+        getattr(D, op)(mk_db(other_spec))
+        return {"op": op, "other": "other"}
+    if op == "prepend":
+        e = w.base[f] + rng.randint(-2, 6)
+        D.prepend(mk_db(other_spec), sc.mk_period(f, e))
+        return {"op": "prepend", "other": "other", "end": [f, e]}
+    if op.startswith("merge"):
+        st = op.split("-")[1]
+        D.merge(mk_db(other_spec), st)
+        return {"op": "merge", "other": "other", "strategy": st}
+    l = rng.sample(keys, min(len(keys), rng.randint(1, 2))) if keys else []
+    if op == "rename":
+        D.rename(list(l), lambda nm: "r_" + nm)
+        return {"op": "rename", "names": l, "targets": "lambda n: 'r_' + n"}
+    if op == "remove":
+        D.remove(list(l))
+        return {"op": "remove", "names": l}
+    D.keep(list(l))
+    return {"op": "keep", "names": l}
+
+
+def _f_merge_reference(strategy, target, others):
+    """Dictionary semantics of merge on observed items: ('ok', dict) | ('raises', None) | None (not decided here)."""
+    cur = dict(target)
+    dup = False
+    for o in others:
+        for k, v in o:
+            if k not in cur:
+                cur[k] = v
+            else:
+                dup = True
+                if strategy == "replace":
+                    cur[k] = v
+                elif strategy in ("stack", "hstack"):
+                    return None
+    if strategy in ("error", "critical") and dup:
+        return ("raises", None)
+    return ("ok", cur)
+
+
+def _falsify_round4(ctx, rng, add, info, fails):
+    import irispie as ir
+    path = str(ctx.work / "falsify4.csv")
+
+    def quiet(fn, *a, **k):
+        with warnings.catch_warnings():
+            warnings.simplefilter("ignore")
+            return fn(*a, **k)
+
+    # 4. sessions: a copy (any selection / renaming) is a databox of its own -- operations applied later to the copy
+    #    leave the source untouched, and operations applied later to the source leave the copy untouched
+    n = ctx.scale(150, 3000)
+    info["session_checks"] = 0
+    for it in range(n):
+        w = World(rng, nfreq=2)
+        sa, sb = w.databox(0.6), w.databox(0.6)
+        if not sa:
+            continue
+        A = mk_db(sa)
+        sel, tgt, desc, names = _f_selection(rng, list(A.keys()))
+        selkind = "all-names" if desc["source_names"] == "None" and desc["target_names"] == "None" else "selection"
+        inp = {"self": sa, "other": sb, "copy": desc, "later": []}
+        try:
+            C = quiet(A.copy, sel, tgt)
+        except Exception as e:  # noqa
+            add(f"session:copy:{selkind}:raises", f"Databox.copy raises {type(e).__name__}: {e}"[:200], inp, repr(e)[:200])
+            continue
+        a0, c0 = dict(observe_db(A)), dict(observe_db(C))
+        want_c = {t_: a0[s_] for t_, s_ in names.items()}
+        if not _obs_equal_db(c0, want_c):
+            add(f"session:copy:{selkind}:result", "Databox.copy does not return exactly the selected items under the target names",
+                inp, _diff_names(c0, want_c), "the selected items under their target names")
+            continue
+        side = rng.choice(["copy", "copy", "source"])
+        D, keep_obj, keep_obs, who = (C, A, a0, "source") if side == "copy" else (A, C, c0, "copy")
+        bad = None
+        for _ in range(rng.randint(1, 3)):
+            try:
+                inp["later"].append(dict(quiet(_f_later_op, rng, w, D, sb), on=side))
+            except Exception:  # noqa   (incompatible variants / frequencies: the operation itself is checked elsewhere)
+                break
+            info["session_checks"] += 1
+            now = dict(observe_db(keep_obj))
+            if not _obs_equal_db(now, keep_obs):
+                bad = _diff_names(now, keep_obs)
+                break
+        if bad is not None:
+            last = inp["later"][-1]["op"]
+            add(f"session:copy:{selkind}:{who}-changed-by-later-operation",
+                f"an in-place operation ({last}) applied to the {side} of Databox.copy(...) changed the {who} databox",
+                inp, bad, f"the {who} databox is untouched by operations on the other databox",
+                "C = A.copy(source_names, target_names); <later operations on one of them>; compare the other one")
+        if len(fails) > 12:
+            return
+
+    # 5. merge of several databoxes in one call: a key may first appear in an earlier merged databox and again in a
+    #    later one; every strategy; Databox.merge and Databox.by_merging
+    n = ctx.scale(200, 4000)
+    info["merge_several_checks"] = 0
+    for it in range(n):
+        w = World(rng, nfreq=rng.choice([1, 1, 2]))
+        nb = rng.choice([2, 2, 3, 4])
+        specs = [w.databox(rng.choice([0.3, 0.5])) for _ in range(nb)]
+        if rng.random() < 0.5:          # make sure a name is shared by two merged databoxes and absent from the target
+            i, j = sorted(rng.sample(range(nb), 2))
+            nm = rng.choice(NAME_POOL)
+            kind = rng.choice(["ser", "ser", "scal", "list"])
+            def _it():
+                if kind == "ser":
+                    f_ = w.freqs[0]
+                    return rand_series(rng, f_, rng.choice([1, 2]), w.base[f_] + rng.randint(-2, 3))
+                return rand_scalar(rng) if kind == "scal" else rand_list(rng)
+            for q in (i, j):
+                specs[q] = [[k_, v_] for k_, v_ in specs[q] if k_ != nm] + [[nm, _it()]]
+        by = rng.random() < 0.4
+        st = [] if by else w.databox(rng.choice([0.0, 0.2, 0.5]))
+        if rng.random() < 0.5:
+            shared = {k_ for sp in specs for k_, _ in sp}
+            st = [[k_, v_] for k_, v_ in st if k_ not in shared or rng.random() < 0.3]
+        strategy = rng.choice(["stack", "stack", "hstack", "replace", "discard", "silent", "warning", "error", "critical"])
+        inp = {"self": st, "others": specs, "strategy": strategy, "call": "Databox.by_merging" if by else "self.merge"}
+        key = "merge:several-databoxes:" + ("stack" if strategy == "hstack" else strategy)
+        repro = ("Databox.by_merging([b1, b2, ...], strategy)" if by else "self.merge([b1, b2, ...], strategy)")
+        info["merge_several_checks"] += 1
+
+        def one_call():
+            if by:
+                return ir.Databox.by_merging([mk_db(sp) for sp in specs], strategy)
+            T = mk_db(st)
+            T.merge([mk_db(sp) for sp in specs], strategy)
+            return T
+
+        def one_by_one():
+            T = mk_db(st)
+            for sp in specs:
+                T.merge(mk_db(sp), strategy)
+            return T
+        try:
+            got = ("ok", dict(observe_db(quiet(one_call))))
+        except Exception as e:  # noqa
+            got = ("raises", f"{type(e).__name__}: {e}"[:160])
+        ref = _f_merge_reference(strategy, observe_db(mk_db(st)), [observe_db(mk_db(sp)) for sp in specs])
+        if ref is not None:
+            if ref[0] != got[0] or (ref[0] == "ok" and not _obs_equal_db(got[1], ref[1])):
+                add(key, f"merging several databoxes in one call with strategy {strategy!r} does not apply the dictionary "
+                         "semantics of the strategy to the names that occur more than once",
+                    inp, got[1] if got[0] == "raises" else ("no error" if ref[0] == "raises" else _diff_names(got[1], ref[1])),
+                    "raises (duplicate names)" if ref[0] == "raises" else
+                    "new names added, duplicate names resolved by the strategy in the order of the databoxes", repro)
+            continue
+        # stack: the series / list semantics are those of merging the databoxes one after the other
+        try:
+            seq = ("ok", dict(observe_db(quiet(one_by_one))))
+        except Exception as e:  # noqa
+            seq = ("raises", f"{type(e).__name__}: {e}"[:160])
+        if seq[0] != got[0] or (seq[0] == "ok" and not _obs_equal_db(got[1], seq[1])):
+            add(key, "merging several databoxes in one call (stack) differs from stacking them one after the other: a name "
+                     "that occurs in two of the merged databoxes is not stacked",
+                inp, got[1] if got[0] == "raises" else ("no error" if seq[0] == "raises" else _diff_names(got[1], seq[1])),
+                seq[1] if seq[0] == "raises" else "the variants / list elements of all occurrences, in the order of the databoxes",
+                repro)
+        if len(fails) > 12:
+            return
+
+    # 6. CSV round trip of databoxes that contain empty series (no observations, unknown frequency), next to dated
+    #    series of any frequency or alone: names, variant counts and descriptions come back, the series stay empty
+    n = ctx.scale(120, 2500)
+    info["csv_empty_series_roundtrips"] = 0
+    for it in range(n):
+        only = rng.random() < 0.25
+        spec = [] if only else _plain_db(rng, nfreq=rng.choice([1, 2, 3]))
+        taken = {k_ for k_, _ in spec}
+        for nm in rng.sample([x for x in NAME_POOL if x not in taken and not x.startswith("_")], rng.randint(1, 3)):
+            e = empty_series(rng)
+            e["desc"] = rng.choice(["", "Some description", "with, comma"])
+            spec.insert(rng.randint(0, len(spec)), [nm, e])
+        inp = {"db": spec, "delimiter": rng.choice([",", ",", ";"]), "round": rng.choice([12, None]),
+               "description_row": rng.random() < 0.6, "nan_str": rng.choice(["", "NaN"]),
+               "names": None}
+        if rng.random() < 0.25:
+            inp["names"] = [k_ for k_, _ in spec if rng.random() < 0.7] or [spec[0][0]]
+        shape = "only-empty-series" if all(it_["start"] is None for k_, it_ in spec
+                                           if inp["names"] is None or k_ in inp["names"]) else "with-empty-series"
+        kw = {} if inp["names"] is None else {"names": list(inp["names"])}
+        repro = (f"db.to_csv_file(f, delimiter={inp['delimiter']!r}, round={inp['round']}, description_row="
+                 f"{inp['description_row']}, nan_str={inp['nan_str']!r}{', names=names' if kw else ''}); "
+                 f"Databox.from_csv_file(f, delimiter={inp['delimiter']!r}, description_row={inp['description_row']})")
+        info["csv_empty_series_roundtrips"] += 1
+        try:
+            db = mk_db(spec)
+            quiet(db.to_csv_file, path, delimiter=inp["delimiter"], round=inp["round"],
+                  description_row=inp["description_row"], nan_str=inp["nan_str"], **kw)
+            back = quiet(ir.Databox.from_csv_file, path, delimiter=inp["delimiter"], description_row=inp["description_row"])
+        except Exception as e:  # noqa
+            add(f"csv:roundtrip-raises:{shape}", f"CSV round trip of a databox with empty series raises {type(e).__name__}: {e}"[:200],
+                inp, f"{type(e).__name__}: {e}"[:200], "the databox read back", repro)
+            continue
+        want_names = sorted(k_ for k_ in db.keys() if inp["names"] is None or k_ in inp["names"])
+        if sorted(back.keys()) != want_names:
+            add(f"csv:names:{shape}", "names differ after the CSV round trip of a databox with empty series", inp,
+                sorted(back.keys()), want_names, repro)
+            continue
+        for nm in want_names:
+            x, y = db[nm], back[nm]
+            want = x.data if inp["round"] is None else np.round(x.data, inp["round"])
+            if y.frequency != x.frequency or y.start != x.start or y.data.shape != x.data.shape:
+                add(f"csv:span:{shape}", f"frequency/span/variants of {nm!r} differ after the CSV round trip", inp,
+                    [str(y.frequency), str(y.start), list(y.data.shape)], [str(x.frequency), str(x.start), list(x.data.shape)], repro)
+            elif not _same_values(y.data, want):
+                add(f"csv:values:{shape}", f"values of {nm!r} differ after the CSV round trip", inp, y.data.tolist(), want.tolist(), repro)
+            elif inp["description_row"] and y.get_description() != x.get_description():
+                add(f"csv:description:{shape}", f"description of {nm!r} differs after the CSV round trip", inp,
+                    y.get_description(), x.get_description(), repro)
+        if len(fails) > 12:
+            return
 
 
 def _spec_of(spec, name):
